@@ -7,11 +7,12 @@ that belong to C03.
 from harness import auction
 
 PROPS = {'C03'}
-KQ, KT = 7, 8
+KQ, KT = 6, 7
+DEEP = (8, 10)          # bids-and-passes-only BMC: who declares does not depend on doubles
 
 
 def cases(tier):
-    return auction.build_cases(PROPS, tier, KQ, KT)
+    return auction.build_cases(PROPS, tier, KQ, KT, deep=DEEP)
 
 
 META = dict(
@@ -19,6 +20,7 @@ META = dict(
     bounds=lambda tier: {'H1': 'history length unbounded (z3 Array + symbolic length); all 38 calls; all dealers/vulnerabilities',
                          'H2': f'every sequence of K={KT if tier == "thorough" else KQ} calls (38^K, symbolic) from the real constructor, '
                                'per dealer; an illegal call ends the sequence after its checks',
+                         'H2 deep': f'every sequence of {DEEP[1] if tier == "thorough" else DEEP[0]} calls restricted to bids and passes, the last three being passes (declarer logic does not depend on doubles)',
                          'synthesis': f'counterexamples to induction must be reachable by <= {auction.SYNTH_MAX} calls of the reference machine'},
     stubs=['logger calls skipped'],
     assumptions=auction.COMMON_ASSUMPTIONS,
